@@ -38,6 +38,13 @@ func (s *SyslogIngester) Process(ctx context.Context, line string) error {
 // ParseSyslogMessage expects a message in the form of "<PID> <Message>".
 func (s *SyslogIngester) ParseSyslogMessage(entry string) sshd.SshdLogEntry {
 	minimumEntrySplitLength := 2
+
+	// The named pipe ingester hands over each record together with
+	// the newline that framed it on the pipe. The terminator is not
+	// part of the sshd message (the "$"-anchored expressions of the
+	// sshd processor would never match otherwise).
+	entry = strings.TrimSuffix(entry, "\n")
+
 	entrySplit := strings.Split(entry, " ")
 
 	if len(entrySplit) < minimumEntrySplitLength {
